@@ -3,8 +3,8 @@
 # usage: tools/matrix.sh [own|all]  -> writes /verif/seeded/matrix.tsv and fills detected_by in meta.json
 MODE=${1:-own}
 PAT=${2:-^C}   # optional regexp limiting the seeded changes; when given, results are appended
-WT=/tmp/matrix-wt
-OUT=/tmp/matrix-out
+WT=${MATRIX_WT:-/tmp/matrix-wt}
+OUT=${MATRIX_OUT:-/tmp/matrix-out}
 git -C /repo worktree remove --force $WT 2>/dev/null
 git -C /repo worktree add -q --detach $WT HEAD || exit 1
 mkdir -p $OUT
